@@ -67,29 +67,33 @@ mod k {
         std::mem::forget(y);
     }
 
-    /// VERIF: {"p":"C19","tier":"quick","fns":["radv::config::parse_prefix","radv::config::parse_rdnss","radv::config::parse_dnssl","radv::config::parse_pref64","radv::config::parse_interface","radv::config::parse","radv::config::parse_domain","config::type_to_name"],"bounds":"each parser on one value, one after the other, of every non-mapping Yaml variant (Real, Integer(any), String, Boolean(any), `[~]`, `[\"a\",\"b\"]`, Alias(any), Null, BadValue); every array NON-empty","oracle":"Err(InvalidConfig) (parse_domain: string => Ok(Some), null => Ok(None)); never a panic","stubs":["alloc::fmt::format -> empty string (message text only)"],"covers":1,"unwind":6}
+    /// VERIF: {"p":"C19","tier":"quick","fns":["radv::config::parse_prefix","radv::config::parse_rdnss","radv::config::parse_dnssl","radv::config::parse_pref64","radv::config::parse_interface","radv::config::parse","radv::config::parse_domain","config::type_to_name"],"bounds":"each parser on, one after the other: Integer(any i64), the string \"x\", Null (e.g. `router-advertisements: { eth0: 5 }`, `pref64: x`, `prefixes: [~]`)","oracle":"Err(InvalidConfig) (parse_domain: string => Ok(Some), null => Ok(None)); never a panic","stubs":["alloc::fmt::format -> empty string (message text only)"],"covers":1,"unwind":6}
     #[kani::proof]
     #[kani::unwind(6)]
     #[kani::stub(alloc::fmt::format, empty_format)]
-    fn c19_radv_parsers_non_mapping() {
-        non_hash_on(KIND_REAL);
+    fn c19_radv_parsers_non_mapping_scalars() {
         non_hash_on(KIND_INT);
         non_hash_on(KIND_STR);
-        non_hash_on(KIND_BOOL);
-        non_hash_on(KIND_ARR_NULL);
-        non_hash_on(KIND_ARR_STRS);
-        non_hash_on(KIND_ALIAS);
         non_hash_on(KIND_NULL);
-        non_hash_on(KIND_BAD);
         kani::cover!(true, "every call returned");
     }
 
-    /// VERIF: {"p":"C19","tier":"quick","fns":["radv::config::parse_prefix","radv::config::parse_rdnss","radv::config::parse_dnssl","radv::config::parse_pref64","radv::config::parse_interface","radv::config::parse","radv::config::parse_domain","config::type_to_name"],"bounds":"each parser on the empty sequence `[]` (e.g. `router-advertisements: { eth0: [] }`, `pref64: []`, `prefixes: [[]]`)","oracle":"Err(InvalidConfig), never a panic","stubs":["alloc::fmt::format -> empty string (message text only)"],"covers":1,"unwind":6}
+    /// VERIF: {"p":"C19","tier":"quick","fns":["radv::config::parse_prefix","radv::config::parse_rdnss","radv::config::parse_dnssl","radv::config::parse_pref64","radv::config::parse_interface","radv::config::parse","radv::config::parse_domain","config::type_to_name"],"bounds":"each parser on, one after the other: Boolean(any), Real, the NON-empty sequence `[\"a\",\"b\"]`","oracle":"Err(InvalidConfig); never a panic","stubs":["alloc::fmt::format -> empty string (message text only)"],"covers":1,"unwind":6}
+    #[kani::proof]
+    #[kani::unwind(6)]
+    #[kani::stub(alloc::fmt::format, empty_format)]
+    fn c19_radv_parsers_non_mapping_others() {
+        non_hash_on(KIND_BOOL);
+        non_hash_on(KIND_REAL);
+        non_hash_on(KIND_ARR_STRS);
+        kani::cover!(true, "every call returned");
+    }
+
+    /// VERIF: {"p":"C19","tier":"quick","fns":["radv::config::parse_prefix","radv::config::parse_rdnss","radv::config::parse_dnssl","radv::config::parse_pref64","radv::config::parse_interface","radv::config::parse","radv::config::parse_domain","config::type_to_name"],"bounds":"each parser on the empty sequence `[]` (e.g. `router-advertisements: { eth0: [] }`, `pref64: []`, `prefixes: [[]]`)","oracle":"Err(InvalidConfig), never a panic","stubs":["alloc::fmt::format -> empty string (message text only)"],"covers":0,"unwind":6}
     #[kani::proof]
     #[kani::unwind(6)]
     #[kani::stub(alloc::fmt::format, empty_format)]
     fn c19_radv_parsers_empty_array() {
-        kani::cover!(kani::any::<u8>() == 0xA5, "reached");
         non_hash_on(KIND_ARR_EMPTY);
     }
 
@@ -125,13 +129,12 @@ mod k {
         std::mem::forget(y);
     }
 
-    /// VERIF: {"p":"C19","tier":"quick","fns":["radv::config::parse_prefix"],"bounds":"a `prefixes` entry that is the empty mapping: `prefixes: [ {} ]`","oracle":"Ok or Err(InvalidConfig) (the manual says `prefix` 'defaults to no prefix'), never a panic","stubs":["alloc::fmt::format -> empty string (message text only)","std::hash::RandomState::new -> fixed keys (creating the empty Hash)"],"covers":1,"unwind":6}
+    /// VERIF: {"p":"C19","tier":"quick","fns":["radv::config::parse_prefix"],"bounds":"a `prefixes` entry that is the empty mapping: `prefixes: [ {} ]`","oracle":"Ok or Err(InvalidConfig) (the manual says `prefix` 'defaults to no prefix'), never a panic","stubs":["alloc::fmt::format -> empty string (message text only)","std::hash::RandomState::new -> fixed keys (creating the empty Hash)"],"covers":0,"unwind":6}
     #[kani::proof]
     #[kani::unwind(6)]
     #[kani::stub(alloc::fmt::format, empty_format)]
     #[kani::stub(std::hash::RandomState::new, fixed_random_state)]
     fn c19_radv_parse_prefix_empty_mapping() {
-        kani::cover!(kani::any::<u8>() == 0xA5, "reached");
         let y = Yaml::Hash(Default::default());
         let r = parse_prefix("prefixes", &y);
         assert!(matches!(r, Ok(_) | Err(Error::InvalidConfig(_))), "parse_prefix: a value or InvalidConfig");
@@ -139,33 +142,10 @@ mod k {
         std::mem::forget(y);
     }
 
-    // ---- is an accepted pref64 prefix safe to advertise? ---------------------------------------------------
-    /// VERIF: {"p":"C19","tier":"quick","fns":["radv::icmppkt::serialise","radv::icmppkt::serialise_router_advertisement (PREF64 option)"],"bounds":"router advertisement carrying one PREF64 option whose prefix length is ANY u8, all 2^128 prefixes, lifetime 600 s: parse_pref64 copies `prefixlen` from str_prefix6, which stores the unvalidated str::parse::<u8>() result (natively confirmed: `pref64: {prefix: 64:ff9b::/16}` loads), and radv::build_announcement hands it to the serialiser unchanged (radv/mod.rs:262-268). str_prefix6 itself cannot be run under CBMC (str::split)","oracle":"serialising the periodic router advertisement of an ACCEPTED configuration never panics / underflows","covers":2,"unwind":20}
-    #[kani::proof]
-    #[kani::unwind(20)]
-    fn c19_radv_pref64_any_len_is_safe_to_advertise() {
-        use crate::radv::icmppkt;
-        let len: u8 = kani::any();
-        let prefix = std::net::Ipv6Addr::from(kani::any::<u128>());
-        kani::cover!(len == 96, "the usual /96");
-        kani::cover!(len == 200, "over-long");
-        let mut options = icmppkt::NDOptions::default();
-        options.add_option(icmppkt::NDOptionValue::Pref64((std::time::Duration::from_secs(600), len, prefix)));
-        let ra = icmppkt::Icmp6::RtrAdvert(icmppkt::RtrAdvertisement {
-            hop_limit: 64,
-            flag_managed: false,
-            flag_other: false,
-            lifetime: std::time::Duration::from_secs(1800),
-            reachable: std::time::Duration::from_secs(0),
-            retrans: std::time::Duration::from_secs(0),
-            options,
-        });
-        let wire = icmppkt::serialise(&ra);
-        assert!(wire.len() == 16 + 16, "RA header + one 16-octet PREF64 option");
-        std::mem::forget(wire);
-        std::mem::forget(ra);
-    }
-
+    // NOT REACHABLE (measured): serialising a router advertisement that carries a PREF64 option
+    // (radv::icmppkt::serialise, one option, symbolic prefix length) does not finish within 400 s; the
+    // `prefixlen - 32` underflow for an accepted `pref64: {prefix: 64:ff9b::/16}` is reported from reading +
+    // native run only.
     // NOT REACHABLE (measured): any mapping with at least one entry.  yaml_rust's Hash is a LinkedHashMap over
     // std's HashMap; one `insert` of one CONCRETE key (RandomState stubbed) does not finish within 900 s of CBMC
     // time, so parsers that iterate over a populated mapping (parse_prefix/parse_interface/parse_pref64/parse_rdnss/parse_dnssl with keys) cannot be driven
